@@ -821,5 +821,7 @@ func main() {
 	c.Set("grid_stake_pairs", len(grid))
 	c.Set("huge_denominator_stake_pairs", len(huge))
 	c.Assume("math/big integer arithmetic and blake2b are trusted; total stake 0 and (pool 0, f = 1) have no defined value in the property and are not judged")
+	// free-running -race pass: concurrent callers on their own inputs (state the library shares between calls)
+	c.RaceAudit("c37")
 	c.Finish()
 }
